@@ -38,14 +38,15 @@ func (GovEngine) Name() string { return "gov" }
 
 // GovSt is the engine's model state.
 type GovSt struct {
-	Setup []Step // pending setup steps (generation mode only)
-	NUser int
-	NVal  int
-	NLeg  int // legacy (cosmos secp256k1) accounts leg/0..NLeg-1, funded at genesis
-	Uniq  int // generator-side counter for unique markers / fresh key indices
-	C15   *c15Model
-	C16   *c16State
-	C14   *c14Model
+	Setup     []Step // pending setup steps (generation mode only)
+	panicSeen map[uint64]bool
+	NUser     int
+	NVal      int
+	NLeg      int // legacy (cosmos secp256k1) accounts leg/0..NLeg-1, funded at genesis
+	Uniq      int // generator-side counter for unique markers / fresh key indices
+	C15       *c15Model
+	C16       *c16State
+	C14       *c14Model
 }
 
 func gst(r *Run) *GovSt { return r.St.(*GovSt) }
@@ -395,17 +396,24 @@ func (e GovEngine) setupSteps(r *Run) []Step {
 	}
 	if (r.Prop == "C15" || r.Cfg.Knob("c07_engine") == "gov") && rng.IntN(4) == 0 {
 		// prelude: a passed proposal whose handler PANICS (recovered by the executor, recorded as the failure
-		// reason): somebody donates to the gov account - its invariant "balance == deposits" is then broken - and the
-		// first proposal of the run asks the crisis module to verify that invariant
-		out = append(out,
-			Step{Kind: "block", DtMs: 5000, N: 1, Txs: []Tx{{K: "g_send", S: KeyName("user", 0), A: A("to", "mod:gov", "amount", FX(int64(1+rng.IntN(9))).String())}}},
-			Step{Kind: "block", DtMs: 5000, N: 1, Txs: []Tx{{K: "g_submit", S: KeyName("user", 0), A: A("spec", gitem("verifyinv", "module", "gov", "route", "module-account"), "deposit", FX(r.Cfg.World.GovMinDepositFX).String(), "title", "verify")}}})
-		var votes []Tx
-		for i := 0; i < st.NVal; i++ {
-			votes = append(votes, Tx{K: "g_vote", S: KeyName("val", i), A: A("id", 1, "opts", "1")})
+		// reason). Governance first overwrites the eth bridge's approved-oracle record with bytes that do not
+		// decode (a raw store update is allowed to do that), then proposes a new oracle list: the handler reads
+		// the record. Nothing else in a governance world reads it.
+		cur := gstoreGet(r.W, "eth", "38")
+		yes := func(id int) Step {
+			var votes []Tx
+			for i := 0; i < st.NVal; i++ {
+				votes = append(votes, Tx{K: "g_vote", S: KeyName("val", i), A: A("id", id, "opts", "1")})
+			}
+			return Step{Kind: "block", DtMs: 5000, N: 1, Txs: votes}
 		}
-		out = append(out, Step{Kind: "block", DtMs: 5000, N: 1, Txs: votes},
-			Step{Kind: "block", DtMs: (r.Cfg.World.GovVotingSec + 20) * 1000, N: 2})
+		dep := FX(r.Cfg.World.GovMinDepositFX).String()
+		wait := Step{Kind: "block", DtMs: (r.Cfg.World.GovVotingSec + 20) * 1000, N: 2}
+		out = append(out,
+			Step{Kind: "block", DtMs: 5000, N: 1, Txs: []Tx{{K: "g_submit", S: KeyName("user", 0), A: A("spec", gitem("store", "space", "eth", "key", "38", "old", cur, "new", "ffff"), "deposit", dep, "title", "overwrite")}}},
+			yes(1), wait,
+			Step{Kind: "block", DtMs: 5000, N: 1, Txs: []Tx{{K: "g_submit", S: KeyName("user", 0), A: A("spec", gitem("ccoracles", "chain", "eth", "n", 2), "deposit", dep, "title", "oracles")}}},
+			yes(2), wait)
 		r.Probe("gov-prelude-panicking-handler")
 	}
 	return out
@@ -507,6 +515,18 @@ func (e GovEngine) Check(r *Run, s *Step, o *Outcome) []Violation {
 	if o != nil && o.Halt != nil {
 		r.Foreign = "halt:" + o.Halt.Site
 		return nil
+	}
+	// reach: a passed proposal whose handler panicked (recovered by the executor)
+	if gv := readGovView(r.W, r.W.Ctx()); gv != nil {
+		for _, id := range gv.IDs {
+			if p := gv.Props[id]; p.Status == govv1.StatusFailed && strings.Contains(strings.ToLower(p.Failed), "panic") && !st.panicSeen[id] {
+				if st.panicSeen == nil {
+					st.panicSeen = map[uint64]bool{}
+				}
+				st.panicSeen[id] = true
+				r.Probe("gov-handler-panicked-and-was-recovered")
+			}
+		}
 	}
 	// the deposit ledger runs for every property (it also feeds the generator)
 	vs15 := st.C15.check(r, s, o)
